@@ -242,10 +242,10 @@ pub fn run_shard(ctx: &mut Ctx) {
             (Tier::Quick, 3) => 1200,
             (Tier::Quick, 4) => 800,
             (Tier::Quick, _) => 500,
-            (Tier::Thorough, 2) => 24_000,
-            (Tier::Thorough, 3) => 18_000,
-            (Tier::Thorough, 4) => 10_000,
-            (Tier::Thorough, _) => 8_000,
+            (Tier::Thorough, 2) => 16_000,
+            (Tier::Thorough, 3) => 12_000,
+            (Tier::Thorough, 4) => 4_000,
+            (Tier::Thorough, _) => 2_000,
         };
         let n = ctx.share(total);
         ctx.run_cases(&format!("insert_history_d{dim}"), n, strategy(dim, max_ops, thorough), &|c, l| exec(c, l));
